@@ -12,6 +12,8 @@ CLAIMS = {
  "C16": ("strong: data-race freedom by lockset (every guarded access reachable from every entry point is inside a critical section of sufficient strength, helper needs propagated over the call graph), acquire/release pairing on all paths, one critical section per reader operation, no guarded pointer escapes; linearizability follows from single-critical-section readers and is not decided beyond that",
          "interprocedural lockset/typestate dataflow on the IR"),
 }
+CLAIMS["C06"] = ("partial, strong: shadow isolation of all update/undo calls during a reload, crosswise exchange of all root state inside one critical section of both write locks, readers locked for the whole query, copy skips exactly the reloading socket and fills only the private table, interprocedural lock order (callback-aware) live-before-shadow; equality of the new data set with the cache's set and behaviour inside user callbacks are not decided",
+    "path-sensitive dataflow per is_resetting cell, straight-line content simulation of the swaps, lockset, interprocedural lock-order graph")
 NA = {}
 def main():
     props = [json.loads(l) for l in open(os.path.join(HERE, "properties.jsonl"))]
